@@ -1,5 +1,7 @@
 use crate::report::Args;
 
+pub mod c03;
+pub mod c09;
 pub mod c13;
 pub mod c16;
 pub mod c17;
@@ -11,6 +13,8 @@ pub fn run(args: &Args) -> i32 {
         "C01" | "C02" | "C14" => mux::run(args),
         "C17" => c17::run(args),
         "C13" => c13::run(args),
+        "C03" => c03::run(args),
+        "C09" => c09::run(args),
         other => {
             eprintln!("unknown property {}", other);
             2
